@@ -2,7 +2,7 @@
 use microscpi::Error;
 use simcore::exec::{Out, Sink};
 use simcore::rng::Rng;
-use simcore::spec::{Family, Model, IFACES, R};
+use simcore::spec::{Family, IFACES, R};
 use simcore::world::{Arg, Ev};
 
 use super::common::{pick_iface, valid_history};
@@ -131,7 +131,7 @@ impl Prop for C06T {
     fn generate(&self, seed: u64, _thorough: bool) -> Scenario {
         let mut rng = Rng::new(seed);
         let (iface, cap) = pick_iface(&mut rng, &[Family::Tree]);
-        let m = Model::of(iface);
+        let m = simcore::spec::model(iface);
         let k = rng.range(2, 8);
         let max_units = rng.range(1, 4);
         let pay = if rng.chance(1, 3) { Payloads::Special } else { Payloads::Plain };
@@ -218,6 +218,34 @@ impl Prop for C06T {
                     ri += m.units.len();
                 }
                 Some(j) => {
+                    // the scenario must be well formed by the harness model (it may have been
+                    // edited by the minimiser): the faulty unit is faulty, its twin is not
+                    let model = simcore::spec::model(sc.iface);
+                    let mut ctx: Vec<String> = Vec::new();
+                    for u in &m.units[..j] {
+                        ctx = gen::ctx_after(&ctx, u);
+                    }
+                    let fu0 = &m.units[j];
+                    let Some(gu0) = fu0.good.as_deref() else { return Verdict::Skip("skip:scenario-not-well-formed") };
+                    let good_decl = if gu0.is_common() { gen::resolve(&model, &gu0.mnems, gu0.query) } else { gen::resolve(&model, &gen::full_header(&ctx, gu0), gu0.query) };
+                    let Some(good_decl) = good_decl else { return Verdict::Skip("skip:scenario-not-well-formed") };
+                    let well_formed = match fu0.fault {
+                        fault::SYNTAX => fu0.raw.is_some() && j + 1 == m.units.len(),
+                        fault::UNDEFINED => {
+                            let full = if fu0.is_common() { fu0.mnems.clone() } else { gen::full_header(&ctx, fu0) };
+                            gen::resolve(&model, &full, fu0.query).is_none() && j + 1 == m.units.len()
+                        }
+                        fault::ARITY => fu0.args.len() != model.decl(good_decl).params.len() && fu0.mnems == gu0.mnems,
+                        fault::CONVERT => fu0.args.len() == model.decl(good_decl).params.len() && fu0.mnems == gu0.mnems,
+                        fault::HANDLER => {
+                            let full = gen::full_header(&ctx, fu0);
+                            gen::resolve(&model, &full, fu0.query).map(|d| gen::is_fail(model.decl(d))).unwrap_or(false) && fu0.args.len() == 1
+                        }
+                        _ => false,
+                    };
+                    if !well_formed {
+                        return Verdict::Skip("skip:scenario-not-well-formed");
+                    }
                     let g = good_of(m);
                     let gb = g.render();
                     let go = exec(&run_exec(sc, gb.clone(), vec![0, gb.len()], Sink::Sim(None), vec![]), st);
@@ -227,6 +255,12 @@ impl Prop for C06T {
                     let gu = units_of(&go);
                     if !go.errors().is_empty() || gu.len() != g.units.len() {
                         return Verdict::Skip("skip:good-twin-of-faulty-message-not-valid");
+                    }
+                    // the twin's unit j must be the handler the harness model resolves it to,
+                    // otherwise what the fault means is not what the harness thinks (C01/C02's subject)
+                    match &gu[j] {
+                        Tok::H { h, .. } if *h as usize == model.decl(good_decl).hid => {}
+                        _ => return Verdict::Skip("skip:header-resolution-differs-from-model(C01/C02)"),
                     }
                     let fu = &m.units[j];
                     let mut fixed: Vec<Tok> = gu[..j].to_vec();
@@ -238,6 +272,7 @@ impl Prop for C06T {
                         fixed.push(Tok::E(None));
                     }
                     segs.push(Seg::Fixed(fixed));
+                    let _ = fu;
                     if j + 1 < gu.len() {
                         segs.push(Seg::AllOrNone(gu[j + 1..].to_vec()));
                     }
